@@ -371,15 +371,12 @@ Section C13_DFT.
   Qed.
 
   (* at integer positions the interpolant is the correlation array itself *)
-  Lemma np_freq_cong n k : 0 < n -> (np_freq n k mod Z.of_nat n = Z.of_nat k mod Z.of_nat n)%Z.
-  Proof.
-    intros Hn. unfold np_freq. rewrite Zminus_mod_idemp_l. f_equal. lia.
-  Qed.
 
   Theorem interp_at_grid F (X Y : Q) (n1 n2 : Z) :
     (X == inject_Z n1)%Q -> (Y == inject_Z n2)%Q ->
     interp F X Y = idft2 F (z1 n1) (z2 n2).
   Proof.
+    clear re re_conj E_conj.
     intros EX EY. unfold interp. rewrite (idft2_sum2 Rth Cok Rok1 Rok2). f_equal.
     apply (sum2_ext Rth Cok Rok1 Rok2). intros k l _ _. f_equal; [f_equal|].
     - rewrite (E_ext _ (inject_Z (np_freq N1 k * n1) / qN N1)%Q)
@@ -390,7 +387,7 @@ Section C13_DFT.
       rewrite Zmult_mod, (Zmult_mod (- Z.of_nat k)), Z.mod_mod by lia.
       f_equal. f_equal.
       rewrite <- (Z.sub_0_l (np_freq N1 k)), <- (Z.sub_0_l (Z.of_nat k)).
-      rewrite Zminus_mod, (np_freq_cong _ _ Npos1), <- Zminus_mod. reflexivity.
+      rewrite Zminus_mod, (np_freq_cong _ Npos1), <- Zminus_mod. reflexivity.
     - rewrite (E_ext _ (inject_Z (np_freq N2 l * n2) / qN N2)%Q)
         by (rewrite EY, inject_Z_mult; reflexivity).
       rewrite E_w2. apply (w_periodic Rth Cok Rok2).
@@ -399,7 +396,7 @@ Section C13_DFT.
       rewrite Zmult_mod, (Zmult_mod (- Z.of_nat l)), Z.mod_mod by lia.
       f_equal. f_equal.
       rewrite <- (Z.sub_0_l (np_freq N2 l)), <- (Z.sub_0_l (Z.of_nat l)).
-      rewrite Zminus_mod, (np_freq_cong _ _ Npos2), <- Zminus_mod. reflexivity.
+      rewrite Zminus_mod, (np_freq_cong _ Npos2), <- Zminus_mod. reflexivity.
   Qed.
 
   (* hence: window samples that fall on whole pixels are (M N times) the correlation samples;
